@@ -7,6 +7,7 @@ import (
 	"pgregory.net/rapid"
 
 	"github.com/bytom/bytom/database/storage"
+	"github.com/bytom/bytom/event"
 	"github.com/bytom/bytom/protocol"
 	"github.com/bytom/bytom/protocol/bc"
 	"github.com/bytom/bytom/protocol/bc/types"
@@ -67,8 +68,9 @@ type Observer struct {
 }
 
 type protocol_events struct {
-	sub  interface{ Chan() <-chan interface{} }
-	open map[bc.Hash]int // tx id -> number of unmatched New
+	sub  *event.Subscription
+	open map[bc.Hash]int // tx id -> number of additions not yet paired with a removal
+	seen int
 }
 
 // observerKey is an identity outside the validator/candidate set: the observed
@@ -88,7 +90,50 @@ func (w *World) NewObserver(or ObsOracles, prods []*Produced) *Observer {
 		o.allTxs = append(o.allTxs, p.Txs...)
 	}
 	o.lastBest = w.Genesis.Hash()
+	if or.C23 {
+		sub, err := n.Disp.Subscribe(protocol.TxMsgEvent{})
+		if err != nil {
+			harness("subscribe: %v", err)
+		}
+		o.txEvents = &protocol_events{sub: sub, open: map[bc.Hash]int{}}
+	}
 	return o
+}
+
+// checkPoolEvents drains the node's pool notifications: every removal must pair with an
+// earlier addition of the same transaction that no other removal has been paired with.
+func (o *Observer) checkPoolEvents(ctx string) {
+	if o.txEvents == nil || o.W.R.Failed() {
+		return
+	}
+	for {
+		select {
+		case ev := <-o.txEvents.sub.Chan():
+			if ev == nil {
+				return
+			}
+			m, ok := ev.Data.(protocol.TxMsgEvent)
+			if !ok || m.TxMsg == nil || m.TxMsg.TxDesc == nil || m.TxMsg.Tx == nil {
+				continue
+			}
+			id := m.TxMsg.Tx.ID
+			o.txEvents.seen++
+			o.W.R.Count("probe.pool_notifications", 1)
+			switch m.TxMsg.MsgType {
+			case protocol.MsgNewTx:
+				o.txEvents.open[id]++
+			case protocol.MsgRemoveTx:
+				if o.txEvents.open[id] == 0 {
+					o.W.R.Violate("pool-removal-notified-without-addition", "", "after %s: notification %d says transaction %s left the pool, but no earlier unpaired addition of it was notified",
+						ctx, o.txEvents.seen, id.String()[:12])
+					return
+				}
+				o.txEvents.open[id]--
+			}
+		default:
+			return
+		}
+	}
 }
 
 // Run executes the acts, then delivers whatever is left in production order.
@@ -275,6 +320,7 @@ func (o *Observer) CheckAll(ctx string) {
 	}
 	if o.Or.C23 {
 		o.checkPool(ctx, bst)
+		o.checkPoolEvents(ctx)
 	}
 }
 
